@@ -63,6 +63,60 @@ Definition pixel_ok (s : pst) (x y w h e : Z) : Prop :=
 
 Definition len_is (d : list Z) (n : Z) : Prop := Z.of_nat (length d) = n.
 
+(* ---- Hextile: the tile list follows the 16x16 grid walk ---- *)
+Definition optlen (o : option (list Z)) (n : Z) : Prop := match o with Some l => len_is l n | None => True end.
+
+Definition tile_ok (bp tw th : Z) (t : tile) : Prop :=
+  match t with
+  | TRaw d => len_is d (tw * th * bp)
+  | TSub bg fg subs =>
+      optlen bg bp /\ optlen fg bp /\
+      match subs with
+      | Some (c, l) => Z.of_nat (length l) < 256 /\ Forall (fun r => len_is r (if c then bp + 2 else 2)) l
+      | None => True
+      end
+  end.
+
+Inductive tiles_ok (bp w h : Z) : Z -> Z -> list tile -> Prop :=
+| TO_done : forall tx ty, ty >= h \/ w <= 0 -> tiles_ok bp w h tx ty []
+| TO_step : forall tx ty t rest, ty < h -> 0 < w ->
+    tile_ok bp (Z.min 16 (w - tx)) (Z.min 16 (h - ty)) t ->
+    tiles_ok bp w h (if tx + 16 <? w then tx + 16 else 0) (if tx + 16 <? w then ty else ty + 16) rest ->
+    tiles_ok bp w h tx ty (t :: rest).
+
+(* ---- Tight ---- *)
+Definition r22 (n : Z) : Prop := 0 <= n < 4194304.
+Definition nib (r : Z) : Prop := 0 <= r < 16.
+
+Definition tight_datalen (s : pst) (w h : Z) (f : tfilter) : Z :=
+  match f with
+  | FPalette cols => if Z.of_nat (length cols) <=? 2 then ((w + 7) / 8) * h else w * h
+  | _ => w * h * tight_pix s
+  end.
+
+Definition tfilter_ok (s : pst) (f : tfilter) : Prop :=
+  match f with
+  | FPalette cols => 1 <= Z.of_nat (length cols) <= 256 /\ Forall (fun c => len_is c (tight_pix s)) cols
+  | _ => True
+  end.
+
+Definition tdata_ok (nozlib : bool) (datalen : Z) (d : tdata) : Prop :=
+  match d with
+  | DRaw b => datalen < TIGHT_MIN_TO_COMPRESS /\ len_is b datalen
+  | DComp b => TIGHT_MIN_TO_COMPRESS <= datalen /\ r22 (Z.of_nat (length b)) /\
+               (nozlib = true -> len_is b datalen)
+  end.
+
+Definition tbody_ok (s : pst) (e w h : Z) (t : tbody) : Prop :=
+  match t with
+  | TbFill r p => nib r /\ len_is p (tight_pix s)
+  | TbJpeg r d => nib r /\ r22 (Z.of_nat (length d))
+  | TbPng r d => nib r /\ r22 (Z.of_nat (length d)) /\ e = enc_TightPng
+  | TbBasic r st nz f d =>
+      nib r /\ (st = 0 \/ st = 1 \/ st = 2 \/ st = 3) /\ (nz = true -> e = enc_Tight) /\
+      tfilter_ok s f /\ tdata_ok nz (tight_datalen s w h f) d
+  end.
+
 (* wf_rect s (hd, body) kind s' : the rectangle is one the grammar allows in state s *)
 Inductive wf_rect (s : pst) : hdr * body -> rect_kind -> pst -> Prop :=
 | W_raw : forall x y w h d, pixel_ok s x y w h enc_Raw -> len_is d (w * h * bypp s) ->
@@ -100,7 +154,11 @@ Inductive wf_rect (s : pst) : hdr * body -> rect_kind -> pst -> Prop :=
 | W_suppencs : forall h d, r16 (4 * h) -> r16 h -> pseudo_enabled s enc_SupportedEncodings = true -> len_is d (4 * h) ->
     wf_rect s ((0, 0, 4 * h, h, enc_SupportedEncodings), BBlob d) RkPseudo s
 | W_ident : forall w d, r16 w -> pseudo_enabled s enc_ServerIdentity = true -> len_is d w ->
-    wf_rect s ((0, 0, w, 0, enc_ServerIdentity), BBlob d) RkPseudo s.
+    wf_rect s ((0, 0, w, 0, enc_ServerIdentity), BBlob d) RkPseudo s
+| W_hextile : forall x y w h tiles, pixel_ok s x y w h enc_Hextile -> tiles_ok (bypp s) w h 0 0 tiles ->
+    wf_rect s ((x, y, w, h, enc_Hextile), BHextile tiles) RkPixel s
+| W_tight : forall x y w h e t, pixel_ok s x y w h e -> e = enc_Tight \/ e = enc_TightPng -> tbody_ok s e w h t ->
+    wf_rect s ((x, y, w, h, e), BTight t) RkPixel s.
 
 Lemma concat_len : forall (subs : list (list Z)) k, Forall (fun sub => len_is sub k) subs ->
   Z.of_nat (length (concat subs)) = Z.of_nat (length subs) * k.
@@ -111,11 +169,154 @@ Proof.
 Qed.
 
 Lemma pixel_checks : forall s x y w h e, pixel_ok s x y w h e ->
-  negb ((p_bpp s =? 8) || (p_bpp s =? 16) || (p_bpp s =? 32)) = false /\
+  negb (bpp_allowed s e) = false /\
   negb (enc_advertised s e) = false /\ ((x + w >? p_fbw s) || (y + h >? p_fbh s)) = false.
 Proof.
-  intros s x y w h e (_ & _ & _ & _ & Hb & Ha & Hx & Hy). rewrite Ha.
+  intros s x y w h e (_ & _ & _ & _ & Hb & Ha & Hx & Hy). rewrite Ha. unfold bpp_allowed.
   destruct Hb as [Hb|[Hb|Hb]]; rewrite Hb; repeat split; cbn; lia.
+Qed.
+
+(* ---- compact lengths (1..3 bytes; boundaries 127/128 and 16383/16384) ---- *)
+Lemma compact_print : forall n rest, r22 n -> compact_len (pcompact n ++ rest) = POk n rest.
+Proof.
+  intros n rest [H0 H1]. unfold pcompact, compact_len.
+  destruct (n <? 128) eqn:E1.
+  - cbn [app u8 pbind]. rewrite E1. reflexivity.
+  - destruct (n <? 16384) eqn:E2.
+    + cbn [app u8 pbind]. destruct (n mod 128 + 128 <? 128) eqn:E3; [lia|]. cbn [u8 pbind].
+      destruct (n / 128 <? 128) eqn:E4; [|lia]. f_equal. lia.
+    + cbn [app u8 pbind]. destruct (n mod 128 + 128 <? 128) eqn:E3; [lia|]. cbn [u8 pbind].
+      destruct ((n / 128) mod 128 + 128 <? 128) eqn:E4; [lia|]. cbn [u8 pbind]. f_equal. lia.
+Qed.
+
+Lemma compact_examples :
+  pcompact 127 = [127] /\ pcompact 128 = [128; 1] /\ pcompact 16383 = [255; 127] /\ pcompact 16384 = [128; 128; 1] /\
+  pcompact 4194303 = [255; 255; 255].
+Proof. repeat split; reflexivity. Qed.
+
+(* ---- Hextile ---- *)
+Definition is_some {A} (o : option A) : bool := match o with Some _ => true | None => false end.
+
+Lemma tile_flags_bits : forall bg fg subs,
+  let f := tile_flags (TSub bg fg subs) in
+  (32 <=? f) = false /\ Z.testbit f 0 = false /\ Z.testbit f 1 = is_some bg /\ Z.testbit f 2 = is_some fg /\
+  Z.testbit f 3 = is_some subs /\ Z.testbit f 4 = match subs with Some (c, _) => c | None => false end.
+Proof. intros [bg|] [fg|] [[[] l]|]; vm_compute; repeat split; reflexivity. Qed.
+
+Lemma skip_opt : forall o bp rest, optlen o bp ->
+  skip (if is_some o then bp else 0) (optbytes o ++ rest) = POk tt rest.
+Proof.
+  intros [l|] bp rest H; cbn [is_some optbytes optlen] in *.
+  - apply skip_app. symmetry. exact H.
+  - destruct rest; reflexivity.
+Qed.
+
+Lemma hextile_print : forall bp w h tx ty ts, tiles_ok bp w h tx ty ts ->
+  forall fuel rest, (length (concat (map print_tile ts)) < fuel)%nat ->
+  hextile_tiles fuel bp w h tx ty (concat (map print_tile ts) ++ rest) = POk tt rest.
+Proof.
+  intros bp w h tx ty ts H. induction H as [tx ty Hd|tx ty t ts' Hty Hw Ht Hrest IH]; intros fuel rest Hf.
+  - destruct fuel; [cbn in Hf; lia|]. cbn [map concat app hextile_tiles].
+    destruct ((ty >=? h) || (w <=? 0)) eqn:E; [reflexivity|lia].
+  - destruct fuel; [lia|]. cbn [map concat]. rewrite <- app_assoc. cbn [hextile_tiles].
+    destruct ((ty >=? h) || (w <=? 0)) eqn:E; [lia|].
+    cbn [map concat] in Hf. rewrite app_length in Hf.
+    assert (Next : forall l', l' = concat (map print_tile ts') ++ rest ->
+              (if tx + 16 <? w then hextile_tiles fuel bp w h (tx + 16) ty l'
+               else hextile_tiles fuel bp w h 0 (ty + 16) l') = POk tt rest).
+    { intros l' ->. destruct (tx + 16 <? w); apply IH; destruct t; cbn [print_tile length] in Hf; lia. }
+    destruct t as [d|bg fg subs].
+    + cbn [print_tile tile_flags app u8 pbind]. change (32 <=? hextileRaw) with false.
+      change (Z.testbit hextileRaw 0) with true. cbv iota.
+      cbn [tile_ok] in Ht. rewrite skip_app by (symmetry; exact Ht). cbn [pbind]. apply Next. reflexivity.
+    + destruct (tile_flags_bits bg fg subs) as (F5 & F0 & F1 & F2 & F3 & F4). cbv zeta in *.
+      cbn [print_tile app u8 pbind]. set (f := tile_flags (TSub bg fg subs)) in *.
+      rewrite F5, F0, F1, F2, F3, F4. cbv iota.
+      cbn [tile_ok] in Ht. destruct Ht as (Hbg & Hfg & Hsub).
+      rewrite <- !app_assoc. rewrite skip_opt by exact Hbg. cbn [pbind].
+      rewrite skip_opt by exact Hfg. cbn [pbind].
+      destruct subs as [[c l]|]; cbn [is_some].
+      * destruct Hsub as [Hn Hl]. cbn [app u8 pbind].
+        rewrite skip_app; [cbn [pbind]; apply Next; reflexivity|].
+        rewrite (concat_len l _ Hl). reflexivity.
+      * cbn [app]. apply Next. reflexivity.
+Qed.
+
+(* ---- Tight ---- *)
+Lemma ctl_nibble : forall c r, nib r -> (c * 16 + r) / 16 = c.
+Proof. intros c r [H0 H1]. lia. Qed.
+
+Lemma tight_data_print : forall nz datalen d rest, tdata_ok nz datalen d ->
+  tight_data nz datalen (print_tdata d ++ rest) = POk tt rest.
+Proof.
+  intros nz datalen [b|b] rest H; cbn [tdata_ok print_tdata] in *; unfold tight_data.
+  - destruct H as [Hs Hl]. destruct (datalen <? TIGHT_MIN_TO_COMPRESS) eqn:E; [|lia].
+    apply skip_app. symmetry. exact Hl.
+  - destruct H as (Hs & Hr & Hz). destruct (datalen <? TIGHT_MIN_TO_COMPRESS) eqn:E; [lia|].
+    rewrite <- app_assoc. rewrite compact_print by exact Hr. cbn [pbind].
+    destruct nz; cbn [andb].
+    + pose proof (Hz eq_refl) as Hz'. unfold len_is in Hz'. rewrite Hz'. rewrite Z.eqb_refl. cbn [negb].
+      apply skip_app. symmetry. exact Hz'.
+    + apply skip_app. reflexivity.
+Qed.
+
+Lemma tight_basic_print : forall s w h nz f d rest, tfilter_ok s f -> tdata_ok nz (tight_datalen s w h f) d ->
+  tight_basic s w h (match f with FNone => false | _ => true end) nz (print_tfilter f ++ print_tdata d ++ rest) =
+  POk tt rest.
+Proof.
+  intros s w h nz f d rest Hf Hd. unfold tight_basic. destruct f as [| | |cols]; cbn [print_tfilter app tight_datalen] in *.
+  - apply tight_data_print. exact Hd.
+  - cbn [u8 pbind]. change (tightFilterCopy =? tightFilterPalette) with false.
+    change ((tightFilterCopy =? tightFilterCopy) || (tightFilterCopy =? tightFilterGradient)) with true. cbv iota.
+    apply tight_data_print. exact Hd.
+  - cbn [u8 pbind]. change (tightFilterGradient =? tightFilterPalette) with false.
+    change ((tightFilterGradient =? tightFilterCopy) || (tightFilterGradient =? tightFilterGradient)) with true. cbv iota.
+    apply tight_data_print. exact Hd.
+  - cbn [u8 pbind]. change (tightFilterPalette =? tightFilterPalette) with true. cbv iota. cbn [u8 pbind].
+    destruct Hf as [Hn Hc].
+    replace (Z.of_nat (length cols) - 1 + 1) with (Z.of_nat (length cols)) by lia.
+    rewrite skip_app by (rewrite (concat_len cols _ Hc); reflexivity). cbn [pbind].
+    apply tight_data_print. exact Hd.
+Qed.
+
+Lemma tight_print : forall s e w h t rest, e = enc_Tight \/ e = enc_TightPng -> tbody_ok s e w h t ->
+  tight_body s e w h (print_tbody t ++ rest) = POk tt rest.
+Proof.
+  intros s e w h t rest He Ht. unfold tight_body.
+  destruct t as [r p|r d|r d|r st nz f d]; cbn [print_tbody tbody_ok app u8 pbind] in *.
+  - destruct Ht as [Hr Hp]. rewrite (ctl_nibble tightFill r Hr). change (tightFill =? tightFill) with true. cbv iota.
+    apply skip_app. symmetry. exact Hp.
+  - destruct Ht as [Hr Hd]. rewrite (ctl_nibble tightJpeg r Hr). change (tightJpeg =? tightFill) with false.
+    change (tightJpeg =? tightJpeg) with true. cbv iota. rewrite <- app_assoc. rewrite compact_print by exact Hd. cbn [pbind].
+    apply skip_app. reflexivity.
+  - destruct Ht as (Hr & Hd & Ee). subst e. rewrite (ctl_nibble tightPng r Hr). change (tightPng =? tightFill) with false.
+    change (tightPng =? tightJpeg) with false.
+    change ((enc_TightPng =? enc_TightPng) && (tightPng =? tightPng)) with true. cbv iota.
+    rewrite <- app_assoc. rewrite compact_print by exact Hd. cbn [pbind]. apply skip_app. reflexivity.
+  - destruct Ht as (Hr & Hst & Hnz & Hf & Hd). rewrite ctl_nibble by exact Hr. rewrite <- app_assoc.
+    destruct nz.
+    + rewrite (Hnz eq_refl) in *. destruct f as [| | |cols];
+        [change (tightNoZlib + 0) with 10|change (tightNoZlib + tightExplicitFilter) with 14 ..];
+        change ((enc_Tight =? enc_TightPng)) with false; cbn [andb];
+        repeat match goal with |- context [?a =? ?b] => let v := eval vm_compute in (a =? b) in change (a =? b) with v end;
+        cbn [andb]; cbv iota;
+        first [ exact (tight_basic_print s w h true FNone d rest Hf Hd)
+              | exact (tight_basic_print s w h true FCopy d rest Hf Hd)
+              | exact (tight_basic_print s w h true FGradient d rest Hf Hd)
+              | exact (tight_basic_print s w h true (FPalette cols) d rest Hf Hd) ].
+    + assert (Hand : forall b, b && false = false) by (intros []; reflexivity).
+      destruct Hst as [Es|[Es|[Es|Es]]]; subst st; destruct f as [| | |cols]; cbn [Z.add];
+        repeat match goal with |- context [?a + ?b] => let v := eval vm_compute in (a + b) in change (a + b) with v end;
+        repeat match goal with |- context [Z.eqb ?a ?b] =>
+                 lazymatch a with e => fail | _ => let v := eval vm_compute in (Z.eqb a b) in change (Z.eqb a b) with v end end;
+        rewrite ?Hand; cbv iota;
+        repeat match goal with |- context [?a >=? ?b] => let v := eval vm_compute in (a >=? b) in change (a >=? b) with v end;
+        repeat match goal with |- context [Z.testbit ?a ?b] => let v := eval vm_compute in (Z.testbit a b) in change (Z.testbit a b) with v end;
+        cbv iota;
+        first [ exact (tight_basic_print s w h false FNone d rest Hf Hd)
+              | exact (tight_basic_print s w h false FCopy d rest Hf Hd)
+              | exact (tight_basic_print s w h false FGradient d rest Hf Hd)
+              | exact (tight_basic_print s w h false (FPalette cols) d rest Hf Hd) ].
 Qed.
 
 Theorem parse_rect_print : forall s r k s' rest, wf_rect s r k s' ->
@@ -126,7 +327,7 @@ Proof.
                 | x y w h bg subs Hp Hbg Hsubs Hn | x y w h e d Hp He Hn
                 | x y w h p Hx Hy Hw Hh Hen Hl | x y w h p Hx Hy Hw Hh Hen Hl | x y Hx Hy Hen | x Hx Hen
                 | w h Hw Hh Hen | x y w h scr Hx Hy Hw Hh Hen Hscr Hn | w d Hw Hen Hl | h d Hw4 Hh Hen Hl
-                | w d Hw Hen Hl];
+                | w d Hw Hen Hl | x y w h tiles Hp Htiles | x y w h e t Hp He Ht];
     cbn [print_rect fst]; rewrite <- !app_assoc.
   - (* Raw *)
     destruct Hp as (Hx & Hy & Hw & Hh & Hrest). rewrite parse_hdr_print; auto; [|rconst]. cbn [pbind].
@@ -227,6 +428,27 @@ Proof.
     change (is_pixel_enc enc_ServerIdentity) with false. change (enc_ServerIdentity =? enc_LastRect) with false. cbv iota.
     rewrite Hen. cbn [negb]. change (enc_ServerIdentity =? enc_XCursor) with false. change (enc_ServerIdentity =? enc_RichCursor) with false. change (enc_ServerIdentity =? enc_PointerPos) with false. change (enc_ServerIdentity =? enc_KeyboardLedState) with false. change (enc_ServerIdentity =? enc_NewFBSize) with false. change (enc_ServerIdentity =? enc_ExtDesktopSize) with false. change (enc_ServerIdentity =? enc_SupportedMessages) with false. change (enc_ServerIdentity =? enc_SupportedEncodings) with false. change (enc_ServerIdentity =? enc_ServerIdentity) with true. cbv iota.
     cbn [print_body]. rewrite skip_app by (symmetry; exact Hl). reflexivity.
+  - (* Hextile *)
+    destruct Hp as (Hx & Hy & Hw & Hh & Hrest). rewrite parse_hdr_print; auto; [|rconst]. cbn [pbind].
+    destruct (pixel_checks s x y w h enc_Hextile (conj Hx (conj Hy (conj Hw (conj Hh Hrest))))) as (C1 & C2 & C3).
+    unfold rect_payload. change (is_pixel_enc enc_Hextile) with true. cbv iota. rewrite C1, C2, C3.
+    change (enc_Hextile =? enc_Raw) with false. change (enc_Hextile =? enc_CopyRect) with false.
+    change (enc_Hextile =? enc_RRE) with false. change (enc_Hextile =? enc_CoRRE) with false.
+    change (enc_Hextile =? enc_Hextile) with true. cbv iota. cbn [print_body].
+    rewrite (hextile_print _ _ _ _ _ _ Htiles); [reflexivity|]. unfold hextile_fuel. rewrite app_length. lia.
+  - (* Tight / TightPng *)
+    destruct Hp as (Hx & Hy & Hw & Hh & Hrest).
+    assert (He32 : r32 e) by (destruct He as [E1|E1]; subst e; rconst).
+    rewrite parse_hdr_print; auto. cbn [pbind].
+    destruct (pixel_checks s x y w h e (conj Hx (conj Hy (conj Hw (conj Hh Hrest))))) as (C1 & C2 & C3).
+    unfold rect_payload.
+    assert (P : is_pixel_enc e = true /\ (e =? enc_Raw) = false /\ (e =? enc_CopyRect) = false /\
+                (e =? enc_RRE) = false /\ (e =? enc_CoRRE) = false /\ (e =? enc_Hextile) = false /\
+                ((e =? enc_Tight) || (e =? enc_TightPng)) = true)
+      by (destruct He as [E1|E1]; subst e; repeat split; reflexivity).
+    destruct P as (P0 & P1 & P2 & P3 & P4 & P5 & P6).
+    rewrite P0, C1, C2, C3, P1, P2, P3, P4, P5, P6. cbn [print_body].
+    rewrite (tight_print s e w h t rest He Ht). reflexivity.
 Qed.
 
 (* ------------------------------------------------------------------ lists of rectangles *)
@@ -488,3 +710,43 @@ Lemma ex_rects_parse :
   parse_stream ex_state (print_fbu 0 ex_rects) =
   ([MFbu 3 [(3, 4, 0, 0, enc_PointerPos); (1, 1, 2, 2, enc_CopyRect); (0, 0, 2, 1, enc_Raw)] false], ex_state, SeClean).
 Proof. reflexivity. Qed.
+
+(* ------------------------------------------------------------------ a concrete Hextile + Tight update *)
+Definition ex2_state : pst :=
+  mkPst 32 24 true 255 255 255 40 40 [enc_Hextile; enc_Tight] [enc_Hextile; enc_Tight] false.
+Definition ex2_rects : list (hdr * body) :=
+  [((0, 0, 17, 2, enc_Hextile),
+    BHextile [TSub (Some [1; 2; 3; 4]) None (Some (true, [[9; 9; 9; 9; 0; 0]; [8; 8; 8; 8; 17; 0]])); TRaw [1; 1; 1; 1; 2; 2; 2; 2]]);
+   ((0, 0, 4, 4, enc_Tight), BTight (TbBasic 0 1 false (FPalette [[1; 2; 3]; [4; 5; 6]]) (DRaw [10; 20; 30; 40])));
+   ((4, 0, 4, 4, enc_Tight), BTight (TbFill 0 [7; 7; 7]));
+   ((8, 0, 16, 16, enc_Tight), BTight (TbJpeg 0 (repeat 5 130)));
+   ((0, 8, 2, 2, enc_Tight), BTight (TbBasic 3 2 false FNone (DComp [1; 2; 3; 4; 5])))].
+
+Lemma ex2_rects_wf : wf_rects ex2_state ex2_rects ex2_state.
+Proof.
+  assert (PO : forall x y w h e, 0 <= x < 100 -> 0 <= y < 100 -> 0 <= w < 100 -> 0 <= h < 100 ->
+               x + w <= 40 -> y + h <= 40 -> enc_advertised ex2_state e = true -> pixel_ok ex2_state x y w h e).
+  { intros. unfold pixel_ok, r16, bpp_ok. cbn [p_bpp p_fbw p_fbh ex2_state]. repeat split; try lia; try assumption. }
+  unfold ex2_rects.
+  eapply WR_cons; [apply W_hextile; [apply PO; try lia; reflexivity|]|discriminate|].
+  { assert (B : bypp ex2_state = 4) by reflexivity. rewrite B.
+    apply TO_step; [lia|lia| |].
+    - cbn [tile_ok optlen]. unfold len_is. split; [reflexivity|]. split; [exact I|]. split; [cbn; lia|].
+      constructor; [reflexivity|]. constructor; [reflexivity|constructor].
+    - change (0 + 16 <? 17) with true. cbv iota.
+      apply TO_step; [lia|lia|reflexivity|]. change (0 + 16 + 16 <? 17) with false. cbv iota.
+      apply TO_done. left. lia. }
+  eapply WR_cons; [apply W_tight; [apply PO; try lia; reflexivity|left; reflexivity|]|discriminate|].
+  { cbn. unfold nib. repeat split; try lia; try discriminate; auto. repeat constructor. }
+  eapply WR_cons; [apply W_tight; [apply PO; try lia; reflexivity|left; reflexivity|]|discriminate|].
+  { cbn. unfold nib. repeat split; lia. }
+  eapply WR_cons; [apply W_tight; [apply PO; try lia; reflexivity|left; reflexivity|]|discriminate|].
+  { cbn [tbody_ok]. unfold nib, r22. rewrite repeat_length. repeat split; lia. }
+  eapply WR_cons; [apply W_tight; [apply PO; try lia; reflexivity|left; reflexivity|]|discriminate|apply WR_nil].
+  { cbn. unfold nib, r22. repeat split; try lia; try discriminate; auto. }
+Qed.
+
+Lemma ex2_rects_parse :
+  parse_stream ex2_state (print_fbu 0 ex2_rects) =
+  ([MFbu 5 (map fst ex2_rects) false], ex2_state, SeClean).
+Proof. vm_compute. reflexivity. Qed.
